@@ -27,7 +27,10 @@ def run_property(prop, tier, repo=None, seed=0, selftest=True):
         prog = Program(repo)
         ctx = report.Ctx(prop, tier, prog, seed)
         mod = importlib.import_module("pdsa.rules.%s" % prop.lower())
-        mod.run(ctx)
+        try:
+            mod.run(ctx)
+        except AnalysisError as e:
+            ctx.error("analysis", str(e))
         if tier == "thorough":
             if hasattr(mod, "widen"):
                 mod.widen(ctx)
@@ -72,7 +75,11 @@ def main(argv=None):
             prog = Program(args.repo)
             ctx = report.Ctx(prop, args.tier, prog, seed)
             mod = importlib.import_module("pdsa.rules.%s" % prop.lower())
-            mod.run(ctx)
+            ctx = report.Ctx(prop, args.tier, prog, seed)
+            try:
+                mod.run(ctx)
+            except AnalysisError as e:
+                ctx.error("analysis", str(e))
             out = {"findings": [f.as_dict() for f in ctx.findings], "errors": ctx.errors,
                    "obligations": len(ctx.obligations)}
         except AnalysisError as e:
